@@ -107,7 +107,22 @@ def gen(rng, tier):
                         seen = True
                     elif c[0] in ('cdisc', 'sever'):
                         c[0] = 'sdisc'
-            ops.append(['race', p, ns, causes])
+            # (last field: the client's disconnect handler disconnects
+            # another client of the namespace - "the host leaves, kick the
+            # guests" - before it goes on)
+            kick = rng.random() < 0.3
+            if kick and npeers > 1:
+                # make sure there is a guest to kick, and (half of the time)
+                # that two causes are aimed at the host itself
+                p2 = rng.choice([x for x in range(npeers) if x != p])
+                ops.append(['connect', p2, ns, 'absent', 'accept'])
+                ops.append(['connect', p, ns, 'absent', 'accept'])
+                if rng.random() < 0.5:
+                    causes = [[rng.choice(['sdisc', 'cdisc']),
+                               rng.randrange(2)],
+                              [rng.choice(['sdisc', 'cdisc', 'sever']),
+                               rng.randrange(2, len(OFFSETS))]]
+            ops.append(['race', p, ns, causes, kick])
             if any(c[0] == 'sever' for c in causes):
                 ops.append(['open', p])
         elif k < 0.95 and cfg['ping']:
@@ -157,6 +172,7 @@ def _run(case, cfg, w):
                        namespaces=cfg['namespaces'], async_handlers=False,
                        **kw)
     behaviours = {}     # (cid, ns) -> behaviour for the next connect request
+    kick_map = {}       # (sid, ns) -> sid its disconnect handler disconnects
     coroutine = cfg['coroutine'] and cfg['mode'] == 'async'
 
     def plan(label, args, ev):
@@ -191,6 +207,12 @@ def _run(case, cfg, w):
             return steps
         if event == 'disconnect':
             pause = w.choices.pick('app', PAUSES, 'dpause')
+            dns0, dsid = (args[0], args[1]) if ns == '*' else (ns, args[0])
+            tgt = kick_map.pop((dsid, dns0), None)
+            if tgt is not None:
+                w.rec.count('app.disconnect_from_disconnect_handler')
+                return [('do', lambda: srv.disconnect(tgt, namespace=dns0)),
+                        ('pause', pause), ('ret', None)]
             if cfg.get('disc_emits'):
                 dns = args[0] if ns == '*' else ns
                 return [('pause', pause),
@@ -544,7 +566,9 @@ def _run(case, cfg, w):
                 check_ended(by_sid[sid], where)
                 probe_dead(by_sid[sid], where)
         elif k == 'race':
-            _, p, ns, causes = op
+            _, p, ns, causes = op[:4]
+            kick = len(op) > 4 and op[4] and cfg['disc_handler'] and \
+                (w.mode == 'thread' or coroutine) and has_handlers(ns)
             if not peer_alive(p) or w.mode != 'async' and len(causes) > 1 \
                     and False:
                 continue
@@ -565,6 +589,15 @@ def _run(case, cfg, w):
 
             def add(s, r):
                 ended.setdefault(s, set()).update(r)
+            if kick and any(kd in ('cdisc', 'sdisc', 'cdisc_reconnect',
+                                   'sever') for kd, _ in causes):
+                guests = sorted((p2, live[p2][ns]) for p2 in live
+                                if p2 != p and ns in live[p2]
+                                and peer_alive(p2))
+                if guests:
+                    kick_map[(sid, ns)] = guests[0][1]
+                    add(guests[0][1], {'server disconnect'})
+                    new_rx(guests[0][0])
             for kind, offi in causes:
                 off = OFFSETS[offi]
                 if kind == 'cdisc':
@@ -606,9 +639,10 @@ def _run(case, cfg, w):
             if len(causes) >= 2:
                 w.rec.count('race.%d_causes' % len(causes))
             w.settle()
+            kick_map.pop((sid, ns), None)
             for s2, rs in ended.items():
                 c = by_sid[s2]
-                live[p].pop(c['ns'], None)
+                live[c['p']].pop(c['ns'], None)
                 end_conn(s2, rs)
                 check_ended(c, where)
             # a CONNECT sent during the race may have been accepted: that is
